@@ -158,6 +158,7 @@ type WorldSpec struct {
 	Events  []*Event   `json:"events,omitempty"`
 	Epoch   int64      `json:"epoch,omitempty"`
 	Budgets *Budgets   `json:"budgets,omitempty"`
+	Devices []string   `json:"devices,omitempty"` // path prefixes that are separate file systems
 }
 
 // TraceEv is one entry of the execution trace.
